@@ -19,6 +19,9 @@ fn run(line: &str) -> String {
     if entry.starts_with('l') {
         return run_lax(entry, &data);
     }
+    if entry.starts_with('p') {
+        return run_pkt(entry, &data);
+    }
     let r = if entry == "eth" {
         SlicedPacket::from_ethernet(&data)
     } else if entry == "sll" {
@@ -136,6 +139,89 @@ fn run(line: &str) -> String {
         None => {}
     }
     format!("ok {}", if w.is_empty() { "-".to_string() } else { w.join(",") })
+}
+
+fn src_tag(s: LenSource) -> &'static str {
+    match s {
+        LenSource::Slice => "slice",
+        LenSource::Ipv4HeaderTotalLen => "v4total",
+        LenSource::Ipv6HeaderPayloadLen => "v6payload",
+        LenSource::UdpHeaderLen => "udplen",
+        LenSource::TcpHeaderLen => "tcplen",
+        LenSource::ArpAddrLengths => "arplen",
+        LenSource::MacsecShortLength => "macsec",
+    }
+}
+
+/// round 3: the packet-level accessors of a STRICT result (entries `peth`, `psll`, `pip`, `pet:<n>`):
+/// values of payload_ether_type / ether_payload / ip_payload / is_ip_payload_fragmented / vlan /
+/// vlan_ids, then the windows in the order of `SlicedPacketPA.packet_windows` (Parse/PacketAccess.v)
+fn run_pkt(entry: &str, data: &[u8]) -> String {
+    let r = if entry == "peth" {
+        SlicedPacket::from_ethernet(data)
+    } else if entry == "psll" {
+        SlicedPacket::from_linux_sll(data)
+    } else if entry == "pip" {
+        SlicedPacket::from_ip(data)
+    } else if let Some(et) = entry.strip_prefix("pet:") {
+        SlicedPacket::from_ether_type(EtherType(et.parse().unwrap()), data)
+    } else {
+        panic!("bad entry {}", entry)
+    };
+    let p = match r {
+        Ok(p) => p,
+        Err(_) => return "err".to_string(),
+    };
+    let base: &[u8] = data;
+    let mut w: Vec<String> = Vec::new();
+    let pet = match p.payload_ether_type() {
+        Some(e) => format!("{}", e.0),
+        None => "-".to_string(),
+    };
+    let ep = match p.ether_payload() {
+        Some(e) => {
+            w.push(off(base, e.payload));
+            format!("{}:{}:{}", e.ether_type.0, src_tag(e.len_source), off(base, e.payload))
+        }
+        None => "-".to_string(),
+    };
+    let ip = match p.ip_payload() {
+        Some(i) => {
+            w.push(off(base, i.payload));
+            format!(
+                "{}:{}:{}:{}",
+                i.ip_number.0,
+                if i.fragmented { 1 } else { 0 },
+                src_tag(i.len_source),
+                off(base, i.payload)
+            )
+        }
+        None => "-".to_string(),
+    };
+    let frag = if p.is_ip_payload_fragmented() { 1 } else { 0 };
+    let vlan = match p.vlan() {
+        Some(VlanSlice::SingleVlan(v)) => {
+            w.push(off(base, v.slice()));
+            off(base, v.slice())
+        }
+        Some(VlanSlice::DoubleVlan(d)) => {
+            w.push(off(base, d.outer.slice()));
+            w.push(off(base, d.inner.slice()));
+            format!("{}/{}", off(base, d.outer.slice()), off(base, d.inner.slice()))
+        }
+        None => "-".to_string(),
+    };
+    let ids = p.vlan_ids();
+    format!(
+        "ok pet={} ep={} ip={} frag={} vlan={} ids={} w={}",
+        pet,
+        ep,
+        ip,
+        frag,
+        vlan,
+        ids.iter().map(|v| format!("{}", v.value())).collect::<Vec<_>>().join("/"),
+        if w.is_empty() { "-".to_string() } else { w.join(",") }
+    )
 }
 
 /// lax whole-packet entry points (extend-c01b)
